@@ -32,6 +32,8 @@ def run(db, chk) -> None:
     _link(db, chk, cs)
     _backward(db, chk, cs, cg)
     check_end_coherence(db, chk, "C13.R5-end-coherence")
+    check_publish_order(db, chk, "C13.R6-publish-after-build")
+    chk.floor("C13.R6-publish-after-build", 2)
 
 
 def _node(name, **attrs):
@@ -338,3 +340,73 @@ def _dir_ok(atom, colterm, want) -> bool:
     if c < 0:
         op = {"<": ">", "<=": ">=", ">": "<", ">=": "<="}[op]
     return op == want
+
+
+def check_publish_order(db, chk, rule: str) -> None:
+    """Typestate of the per-rank build: [build every thread's tree] -> [link the threads' trees] -> [publish the node attributes to the
+    frame] -> [normalise the published columns].  Publishing before the last tree mutation leaves pre-link depths / kernel totals in the
+    columns every consumer reads (C13: attributes agree with the tree; C16: operators are selected by those columns)."""
+    cs, cg = db.mod(CS), db.mod(CG)
+    owner = None
+    for q, f in cg.functions.items():
+        if any(isinstance(c.func, ast.Attribute) and c.func.attr == "save_call_stack_to_dataframe" for c in H.calls(f, nested=False)) and q.startswith("CallGraph."):
+            owner = (q, f)
+    if owner is None:
+        raise AnalysisError("no CallGraph method publishes the call-stack columns (save_call_stack_to_dataframe)")
+    q, f = owner
+    where = cg.loc(f)
+    # tree mutators: methods of CallGraph that (transitively, inside the two modules) reach a writer of node.parent / node.children / depth / height
+    def reaches_writer(mod, cls, name, seen):
+        key = (mod.name, cls, name)
+        if key in seen:
+            return False
+        seen.add(key)
+        g = mod.functions.get(f"{cls}.{name}")
+        if g is None:
+            return False
+        for n in ast.walk(g):
+            if isinstance(n, (ast.Assign, ast.AugAssign)):
+                for t in (n.targets if isinstance(n, ast.Assign) else [n.target]):
+                    if isinstance(t, ast.Attribute) and t.attr in ("parent", "depth", "height") and not (isinstance(t.value, ast.Name) and t.value.id == "self"):
+                        return True
+            if isinstance(n, ast.Call) and isinstance(n.func, ast.Attribute):
+                if n.func.attr in ("append", "remove", "extend") and isinstance(n.func.value, ast.Attribute) and n.func.value.attr == "children":
+                    return True
+                for m2, c2 in ((cg, "CallGraph"), (cs, "CallStackGraph")):
+                    if f"{c2}.{n.func.attr}" in m2.functions and reaches_writer(m2, c2, n.func.attr, seen):
+                        return True
+        return False
+
+    top = list(f.body)
+
+    def pos_of(node):
+        for i, s in enumerate(top):
+            if any(x is node for x in ast.walk(s)):
+                return i
+        return None
+    events = []      # (top-level statement index, kind, text)
+    for c in H.calls(f, nested=False):
+        if isinstance(c.func, ast.Attribute) and isinstance(c.func.value, ast.Name) and c.func.value.id in ("self", "cls") and reaches_writer(cg, "CallGraph", c.func.attr, set()):
+            events.append((pos_of(c), "mutate", ast.unparse(c)[:60]))
+        elif H.name_id(c.func) == "CallStackGraph":
+            events.append((pos_of(c), "mutate", "CallStackGraph(...)"))
+        elif isinstance(c.func, ast.Attribute) and c.func.attr == "save_call_stack_to_dataframe":
+            events.append((pos_of(c), "publish", ast.unparse(c)[:70]))
+            whole = lit(H.kwarg(c, "apply_whole_graph"), None)
+            chk.ob(rule, "the publication covers the whole node map (apply_whole_graph=True)", whole is True, cg.loc(c), found=ast.unparse(c), accepted="save_call_stack_to_dataframe(apply_whole_graph=True)",
+                   why="a per-thread publication leaves the other threads' rows at their initial values")
+        elif isinstance(c.func, ast.Attribute) and c.func.attr == "_normalize_stack_columns":
+            events.append((pos_of(c), "normalise", ast.unparse(c)[:60]))
+    events.sort(key=lambda e: (e[0] if e[0] is not None else -1))
+    kinds = [k for _, k, _ in events]
+    muts = [e for e in events if e[1] == "mutate"]
+    pubs = [e for e in events if e[1] == "publish"]
+    norms = [e for e in events if e[1] == "normalise"]
+    if len(muts) < 2 or len(pubs) != 1 or len(norms) != 1 or any(e[0] is None for e in events):
+        chk.ob(rule, f"{q}: build / link / publish / normalise steps recognised", None, where, found=events, why="expected >= 2 tree-mutating steps (thread trees, cross-thread link), one publication, one normalisation")
+        return
+    ok = max(e[0] for e in muts) < pubs[0][0] < norms[0][0]
+    chk.ob(rule, f"{q}: every tree mutation (thread trees, cross-thread linking) precedes the publication of node attributes, normalisation follows it", ok, where,
+           found=[f"{i}:{k}:{t}" for i, k, t in events], accepted="mutate ... mutate < publish < normalise (top-level statement order)",
+           why="columns published before the autograd thread is linked under the main thread keep per-thread depths and exclude that thread's kernels from the annotation's totals")
+    chk.analysed_add("typestate_events", [f"{k}:{t}" for _, k, t in events])
